@@ -16,6 +16,10 @@ import lib  # noqa: E402  (puts PV_REPO or /repo first on sys.path)
 
 ID = "C16"
 LEAN_TARGETS = ["PV.Props.C16"]
+# T-D: functions translated from the source by harness/pytrans.py, proved equal to the model (DESIGN section 0)
+EQUIV = {"PV.Equiv.TranslatedSources": ["get_config_path_eq", "get_platforms_filepath_eq", "maxByKey_eq",
+                                        "get_uris_and_open_func_eq", "choose_lines", "read_tle_choose"],
+         "PV.Equiv.TranslatedInit": ["read_tle_lines", "read_tle_source"]}
 RULE = ("exhaustive product {line1/line2: both, line1 only, line2 only, none} x {tle_file: None, path, StringIO, admin-message "
         "XML, '', and the given sources that yield nothing: admin message without <navigation>, admin message with another "
         "satellite's elements only, empty file, file holding only the name line, file / StringIO without the platform, empty "
